@@ -1,6 +1,6 @@
 """C08 Fast-mode dataset equals light-mode items, however it is initialised."""
 import astq
-from rules import cgsize, dsinit, x86hsem
+from rules import cgsize, dsinit, rv64, x86hsem
 
 LEVEL = 'other'
 TECHNIQUE = 'affine / interval case analysis of randomx_init_dataset over (count mod 4) x (count < 4) regions, constant-table agreement spec vs C++ vs assembled object, call-sequence and shape rules on the item construction; evaluation of the address-arithmetic slice on a sample set of ranges'
@@ -10,10 +10,12 @@ CLAIM = ('Decides statically, for every (start, count) including 0..3, non-multi
          'the interpreted and compiled initialiser are selected consistently; initDatasetItem has the step order of spec 7.3. Equality of the computed 64-byte items between compiled and '
          'interpreted code is numeric and not claimed.'
          ' The range property is additionally decided independently of the shape of the splitting code: the address-arithmetic slice of randomx_init_dataset and of the interpreted initialiser is evaluated for 900+ (start, count, initialiser) cases covering every residue of count mod 4 and ranges at both ends of the dataset (DS-RANGE-EVAL).'
-         ' The compiled dataset initialiser computes the same SuperscalarHash instructions as the interpreter: every kind of instruction the x86 emitter produces is validated against specification Table 6.1.1 by symbolic execution of the emitted bytes (X86-SS-HSEM).')
+         ' The compiled dataset initialiser computes the same SuperscalarHash instructions as the interpreter: every kind of instruction the x86 emitter produces is validated against specification Table 6.1.1 by symbolic execution of the emitted bytes (X86-SS-HSEM).'
+         ' RVV template: every register that generated dataset-init code advances in place is reloaded inside the item loop (RVV-TPL-REINIT), so items after the first group use the same literals.')
 LEVEL_NOTE = 'Trusted: documented precondition start + count <= item count; the compiled initialiser (hand-written asm + generated SuperscalarHash) writes [S, E) when E - S is a positive multiple of 4 (its loop shape is checked in RACE-ASM, its arithmetic is not).'
 EXPLANATION = ('RACE-RANGE (8 regions x calls), DS-INITSEL, SPEC-DSCONST (16), DS-ITEM. DS-RANGE-EVAL.'
-         ' X86-SS-HSEM.')
+         ' X86-SS-HSEM.'
+         ' RVV-TPL-REINIT.')
 
 
 def run(ctx, R):
@@ -24,3 +26,4 @@ def run(ctx, R):
     dsinit.rule_dsconst(ctx, R, F)
     cgsize.rule_layout(ctx, R, F)
     x86hsem.rule_ss_hsem(ctx, R)    # compiled and interpreted dataset initialisation compute the same SuperscalarHash
+    rv64.rule_rvv_tpl_reinit(ctx, R)
